@@ -26,7 +26,6 @@ use identity_core::convert::FromJson;
 use identity_core::convert::ToJson;
 use identity_did::CoreDID;
 use identity_did::DIDUrl;
-use identity_did::DID;
 use identity_document::document::CoreDocument;
 use identity_document::service::Service;
 use identity_document::verifiable::JwsVerificationOptions;
